@@ -149,7 +149,14 @@ def _release(ctx: Ctx, m: pf.Module, cls: ast.ClassDef, guards: List[af.Guarded]
     params = [a.arg for a in fn.args.args]
     ctx.need(len(params) == 2, f'release parameters changed: {params}')
     w = params[1]
-    wl = af.wake_loop(m, cls, 'release', VAL, Q)
+    try:
+        wl = af.wake_loop(m, cls, 'release', VAL, Q)
+    except af.FitNotOnValue as e:
+        ctx.bad('R3', f'{F}::{qn}::wake loop::fit test `{e.test_src}`', f'the head waiter is woken by comparing its weight with the amount being released (`{e.test_src}`), not with the total free '
+                f'capacity {VAL}: capacity that was already free, or that is freed by several smaller releases, never wakes a heavier head - it stays blocked although enough capacity is free',
+                m.path, e.lineno)
+        af.blocked(ctx, 'R3', 'R1', 'R2', 'R3')
+        return
     L = af.test_node(cfg, wl.stmt.test)  # type: ignore[union-attr]
     # give-back first
     incs = af.stmt_nodes(cfg, lambda n: isinstance(n.ast, ast.AugAssign) and isinstance(n.ast.op, ast.Add) and pf.nsrc(n.ast.target) == VAL)
